@@ -51,6 +51,9 @@ MUT = [
  ("unclosed-echo-short", F, "self.fmt.size() - arg_fmt_start),", "self.fmt.size() - arg_fmt_start - 1),"),
  ("lookahead-unchecked", F, "auto next = (i + 1) < self.fmt.size() ? self.fmt[i + 1] : 0;", "auto next = self.fmt[i + 1];"),
  ("logger-cstr-append-no-flush-terminator", L, None, None),
+ ("fmt-holds-rvalues-by-reference", F, "return detail_::fmt_impl<Ts...>{fmt, frg::tuple<Ts...>{std::forward<Ts>(ts)...}};",
+                                       "return detail_::fmt_impl<Ts &&...>{fmt, frg::tuple<Ts &&...>{std::forward<Ts>(ts)...}};"),
+ ("logger-cstr-full-then-char-append", L, None, None),
 ]
 only = sys.argv[1:] 
 for name, path, old, new in MUT:
@@ -64,6 +67,10 @@ for name, path, old, new in MUT:
     elif name == "logger-cstr-append-no-flush-terminator":
         # the C-string append forgets to reset _off after a flush on the rare path _off + 1 == Limit
         s2 = s.replace("\t\t\t\t\t_logger->_emit(_buffer);\n\t\t\t\t\t_off = 0;\n", "\t\t\t\t\t_logger->_emit(_buffer);\n\t\t\t\t\t_off = Limit > 8 ? 1 : 0;\n")
+    elif name == "logger-cstr-full-then-char-append":
+        # the C-string append flushes eagerly when it has just filled the buffer but leaves _off at Limit-1:
+        # only a following char-wise append (digits, view bytes) sees the stale offset
+        s2 = s.replace("\t\t\t\t_buffer[_off++] = *str++;\n\t\t\t}\n", "\t\t\t\t_buffer[_off++] = *str++;\n\t\t\t}\n\t\t\tif(_off + 1 == Limit && Limit > 2) { _buffer[_off] = 0; _logger->_emit(_buffer); _off = 1; }\n")
     else:
         assert s.count(old) >= 1, name
         s2 = s.replace(old, new)
